@@ -533,7 +533,7 @@ def _rename_rules(chk, fi, fm, f, _try) -> None:
     repo = chk.repo
     wp = repo.func(M, "write_pdb")
     cif = c09.extract_atom_data(wp, "mmCIF")
-    alias = {"record_name": "record_type"}
+    alias = c09.key_alias(repo)
     maps = None
     try:
         maps = c10e.rename_maps(chk, fi)
